@@ -324,6 +324,24 @@ def b2(pid, tier, seed, wd, rep):
         rng = random.Random(seed * 1000003 + (1 if transport == "udp" else 2))
         scripts = [rand_history(rng, "%s/h%d" % (transport, i), transport, nsteps) for i in range(nh if transport == "udp" else nh // 2)]
         out = run_scripts(scripts, wd, "b2" + transport)
+        if pid == "C20":
+            # the same histories again in other agent instances (another thread, decoy agents, later in the process):
+            # up to the first poll that resolves a tie differently (HashMap order, the only legitimate nondeterminism)
+            # every answer and the visible state must be the same
+            again = [dict(sc, id=sc["id"] + "/again", thread=True, decoys=2) for sc in scripts]
+            out2 = run_scripts(again, wd, "b2again" + transport)
+            for sc in scripts:
+                e1, e2 = out[sc["id"]], out2[sc["id"] + "/again"]
+                for si, (a, b) in enumerate(zip(e1, e2)):
+                    if a["a"] == "poll" and a["ret"] != b["ret"]:
+                        if a["ret"].get("k") == b["ret"].get("k") and a["ret"].get("k") != "wait" and a["ret"].get("tid") != b["ret"].get("tid"):
+                            break                       # a tie between two due requests
+                    if a["ret"] != b["ret"] or a["obs"] != b["obs"] or a.get("probe") != b.get("probe"):
+                        stats["rejected"] += 1
+                        rep.violation("%s step %d: the same history in another agent instance answers differently: %s / %s vs %s / %s" % (
+                            sc["id"], si, json.dumps(a["ret"])[:150], json.dumps(a["obs"])[:200], json.dumps(b["ret"])[:150], json.dumps(b["obs"])[:200]),
+                            {"kind": "agent_script", "script": sc})
+                        break
         hist_lines = []
         for sc in scripts:
             evs = out[sc["id"]]
